@@ -2,10 +2,10 @@ package main
 
 import (
 	"fmt"
-	"sort"
 	"go/ast"
 	"go/token"
 	"go/types"
+	"sort"
 	"strings"
 
 	"golang.org/x/tools/go/cfg"
